@@ -3,6 +3,8 @@ import sys
 import struct
 import threading
 import itertools
+import collections
+import collections.abc
 from hypothesis import strategies as st
 from vlib.core import Clause, Violation
 from vlib import sched
@@ -45,7 +47,10 @@ def strat(lines):
     player = st.fixed_dictionaries(dict(audio=audio, chunk=st.one_of(st.integers(1, 4), st.integers(1, 4), st.none()),
                                         channels=st.integers(1, 2),
                                         # the channel count by its current name or by the older alias
-                                        chan_kw=st.sampled_from(["channels", "channels", "nchannels"])))
+                                        chan_kw=st.sampled_from(["channels", "channels", "nchannels"]),
+                                        # how finite audio is handed over: a one-shot iterator or a container
+                                        container=st.sampled_from(["iter", "iter", "list", "tuple", "deque",
+                                                                   "sequence", "generator"])))
     ctl = st.lists(st.one_of(
       st.tuples(st.sampled_from(OPS), st.integers(0, 3)),
       st.tuples(st.sampled_from(OPS), st.integers(0, 3)),
@@ -63,6 +68,34 @@ def strat(lines):
       default_chunk=st.integers(1, 3), strategy=st.sampled_from(["struct", "struct", "array"]),
       lines=st.just(lines)))
   return build
+
+
+class _Seq(collections.abc.Sequence):
+  """A user sequence: integer indexes and len() only (no slices)."""
+  def __init__(self, items):
+    self._items = list(items)
+
+  def __len__(self):
+    return len(self._items)
+
+  def __getitem__(self, i):
+    if not isinstance(i, int):
+      raise TypeError("indices must be integers")
+    return self._items[i]
+
+
+def as_container(kind, items):
+  if kind == "list":
+    return list(items)
+  if kind == "tuple":
+    return tuple(items)
+  if kind == "deque":
+    return collections.deque(items)
+  if kind == "sequence":
+    return _Seq(items)
+  if kind == "generator":
+    return (v for v in items)
+  return iter(items)
 
 
 def padded(audio, chunk, channels):
@@ -122,7 +155,7 @@ def run_case(c):
     elif isinstance(audio, tuple):
       data = itertools.cycle(list(audio[1]))
     else:
-      data = iter(list(audio))
+      data = as_container(p.get("container", "iter"), list(audio))
     chan = {p.get("chan_kw", "channels"): p["channels"]}
     if p["chunk"] is None:
       th = io.play(data, **chan)
@@ -178,6 +211,11 @@ def run_case(c):
         out["play_after"] = "accepted"
       except RuntimeError:
         out["play_after"] = "raises"
+      # the closed manager is forgotten: its destructor runs (here explicitly, in the main thread)
+      try:
+        lazy_io.AudioIO._verif_del(io)
+      except Exception as e:
+        out["del"] = e
     finally:
       sys.settrace(None)
   except sched.Abort:
@@ -256,8 +294,11 @@ def run_case(c):
     if f.closed != 1:
       raise Violation("a device stream (%s) was closed %d times; %s"
                       % ("input" if f.kw.get("input") else "output", f.closed, ctx))
+  if "del" in out:
+    raise Violation("the destructor of the closed manager raised %r; %s" % (out["del"], ctx))
   if pa.terminated != 1:
-    raise Violation("backend terminated %d times; %s" % (pa.terminated, ctx))
+    raise Violation("backend terminated %d times (close, then the destructor of the closed manager); %s"
+                    % (pa.terminated, ctx))
   if out.get("play_after") != "raises":
     raise Violation("play() after close was accepted; %s" % ctx)
   if io._threads:
@@ -283,6 +324,11 @@ def run_case(c):
   labels.append("chunks." + c.get("strategy", "struct"))
   if extra:
     labels.append("spawned mid-history")
+  for p in specs:
+    if not isinstance(p["audio"], tuple) and p.get("container", "iter") != "iter":
+      labels.append("audio:" + p["container"])
+      if p["container"] in ("deque", "sequence") and len(p["audio"]) >= p["chunk"] * p["channels"]:
+        labels.append("unsliceable sequence of a chunk or more")
   if any(op == "refused play" for op, _ in ctl):
     labels.append("a refused play in the history")
   if any(p.get("chan_kw") == "nchannels" and p["channels"] > 1 for p in specs):
@@ -296,7 +342,8 @@ def run_case(c):
 CLAUSES = [
   Clause("sync_points", strat(False), run_case, quick=6000, thorough=60000,
          floors={"paused at close": .1, "stop then close": .1, "pre-empted": .2, "endless audio": .1,
-                 "a refused play in the history": .05, "nchannels alias, stereo": .05},
+                 "a refused play in the history": .05, "nchannels alias, stereo": .05,
+                 "unsliceable sequence of a chunk or more": .05},
          doc="schedules pre-empting at lock/event/thread operations and backend calls"),
   Clause("source_lines", strat(True), run_case, quick=1500, thorough=30000,
          floors={"pre-empted": .15, "paused at close": .05},
